@@ -28,7 +28,7 @@ def target(c):
 
     def cases():
         for order in ORDERS:
-            for first_op in ("bytes", "parse", "to_dict", "construct_only"):
+            for first_op in ("bytes", "parse", "to_dict", "construct_only", "len", "dump_delimited"):
                 yield {"order": order, "first_op": first_op}
 
     def ev(case):
@@ -47,6 +47,12 @@ def target(c):
                 guard("first_parse", first().parse, b"\x08\x01")
             elif case["first_op"] == "to_dict":
                 guard("first_to_dict", first(i=1).to_dict)
+            elif case["first_op"] == "len":
+                guard("first_len", len, first(i=1))
+            elif case["first_op"] == "dump_delimited":
+                from io import BytesIO
+
+                guard("first_dump", first(i=1).dump, BytesIO(), betterproto.SIZE_DELIMITED)
             else:
                 guard("first_construct", first)
             objs = [
@@ -57,6 +63,11 @@ def target(c):
             ]
             from google.protobuf import json_format
 
+            if case["order"] in ("child_first", "grand_first"):
+                # the base class is measured before the classes derived from it are
+                for cls, m, refname, want in objs[:1] + objs[3:] + objs[1:3]:
+                    if guard("len_early", len, m) != len(guard("bytes_early", bytes, m)):
+                        bad("subclass_len", f"{cls.__name__}: len {len(m)} bytes {len(bytes(m))}")
             for cls, m, refname, want in objs:
                 b = guard("bytes", bytes, m)
                 r = c.rf(refname).FromString(b)
